@@ -37,8 +37,8 @@ def _lam_tables():
     return ctx, act, rwd
 
 
-def _lambda_env(ctx, act, rwd):
-    return LambdaSimulation(N, lambda i: ctx[i], lambda i, c: act, lambda i, c, a: rwd[i][act.index(a)])
+def _lambda_env(ctx, act, rwd, n=N):
+    return LambdaSimulation(n, lambda i: ctx[i], lambda i, c: act, lambda i, c, a: rwd[i][act.index(a)])
 
 
 def src_lam(scratch):
@@ -77,6 +77,23 @@ def src_lamv(scratch):
     _, _, rwd = _lam_tables()
     act = [0, 1, 2]
     return Built(_lambda_env(ctx, act, rwd), {'contexts': ctx, 'actions': act, 'rewards': rwd})
+
+
+N_BIG = 40     # > Cache's slice of 25; 40 interactions x 4 actions = 160 function evaluations per read (> any 128-entry memo)
+N_HUGE = 1001  # > the 1000-interaction batches of Environments.save
+
+
+def src_lam40(scratch):
+    """A source that is larger than the size bounds visible in the code of the stateful filters (slice / batch / memo sizes)."""
+    ctx = [[i % 7, (i * 3) % 5 + 0.5] for i in range(N_BIG)]
+    act = ['w', 'x', 'y', 'z']
+    rwd = [[((i * 7 + k * 3) % 11) / 10 for k in range(4)] for i in range(N_BIG)]
+    return Built(_lambda_env(ctx, act, rwd, N_BIG), {'contexts': ctx, 'actions': act, 'rewards': rwd})
+
+
+def src_lam1k(scratch):
+    act = [0, 1, 2]
+    return Built(LambdaSimulation(N_HUGE, lambda i: [i % 7, i % 3], lambda i, c: act, lambda i, c, a: ((i + a) % 5) / 4), {'actions': act})
 
 
 def src_lin(scratch):
@@ -197,6 +214,8 @@ SOURCES = {
     'lamna':    (src_lamna,    'LambdaSimulation',                    {'sim'}),
     'lamv':     (src_lamv,     'LambdaSimulation',                    {'sim'}),
     'lin':      (src_lin,      'LinearSyntheticSimulation',           {'sim'}),
+    'lam40':    (src_lam40,    'LambdaSimulation(40 interactions)',   {'sim'}),
+    'lam1k':    (src_lam1k,    'LambdaSimulation(1001 interactions)', {'sim'}),
     'supXY':    (src_supXY,    'SupervisedSimulation(X,Y)',           {'sim'}),
     'supXYr':   (src_supXYr,   'SupervisedSimulation(X,Y)',           {'cont'}),
     'supLS':    (src_supLS,    'SupervisedSimulation(source)',        {'sim'}),
@@ -208,6 +227,9 @@ SOURCES = {
     'resO':     (src_resO,     'ResultEnvironment(Result)',           {'sim', 'logged'}),
     'resF':     (src_resF,     'ResultEnvironment(file)',             {'sim', 'logged'}),
 }
+
+
+SRC_BIG = ('lam40', 'lam1k')       # explored by their own plans (see C04.pipelines)
 
 
 def build_source(name, scratch):
